@@ -639,16 +639,23 @@ impl FatVolume {
                 self.iterate_fat16(dir_info, fat16_info, block_cache, |de, odde| {
                     if let Some((start, this_seqno, csum, buffer)) = odde.lfn_contents() {
                         seq_state = seq_state.update(lfn_buffer, start, this_seqno, csum, buffer);
-                    } else if let SeqState::Complete { csum } = seq_state {
-                        if csum == de.name.csum() {
-                            // Checksum is good, and all the pieces are there
-                            func(de, Some(lfn_buffer.as_str()))
+                    } else {
+                        if let SeqState::Complete { csum } = seq_state {
+                            if csum == de.name.csum() {
+                                // Checksum is good, and all the pieces are there
+                                func(de, Some(lfn_buffer.as_str()))
+                            } else {
+                                // Checksum was bad
+                                func(de, None)
+                            }
                         } else {
-                            // Checksum was bad
                             func(de, None)
                         }
-                    } else {
-                        func(de, None)
+                        // A long name only belongs to the short entry that
+                        // directly follows it, so don't carry it over to
+                        // the next short entry.
+                        seq_state = SeqState::Waiting;
+                        lfn_buffer.clear();
                     }
                 })
             }
@@ -656,16 +663,23 @@ impl FatVolume {
                 self.iterate_fat32(dir_info, fat32_info, block_cache, |de, odde| {
                     if let Some((start, this_seqno, csum, buffer)) = odde.lfn_contents() {
                         seq_state = seq_state.update(lfn_buffer, start, this_seqno, csum, buffer);
-                    } else if let SeqState::Complete { csum } = seq_state {
-                        if csum == de.name.csum() {
-                            // Checksum is good, and all the pieces are there
-                            func(de, Some(lfn_buffer.as_str()))
+                    } else {
+                        if let SeqState::Complete { csum } = seq_state {
+                            if csum == de.name.csum() {
+                                // Checksum is good, and all the pieces are there
+                                func(de, Some(lfn_buffer.as_str()))
+                            } else {
+                                // Checksum was bad
+                                func(de, None)
+                            }
                         } else {
-                            // Checksum was bad
                             func(de, None)
                         }
-                    } else {
-                        func(de, None)
+                        // A long name only belongs to the short entry that
+                        // directly follows it, so don't carry it over to
+                        // the next short entry.
+                        seq_state = SeqState::Waiting;
+                        lfn_buffer.clear();
                     }
                 })
             }
